@@ -506,7 +506,7 @@ func (x *c17Runner) runCase(kind string, in c17Input) {
 			co.add("dec", tag, res.OK || len(input) > 2, in, res, "direct "+in.Type+" "+hx(input))
 			return
 		}
-		if !ok || !modelled || len(input) > 3000 || (!res.OK && c17ECErr.MatchString(res.Err)) {
+		if !ok || !modelled || len(input) > 6000 || (!res.OK && c17ECErr.MatchString(res.Err)) {
 			co.hist["dec/"+tag+"(direct only)"]++
 			return
 		}
@@ -817,6 +817,15 @@ func c17RunModelled(x *c17Runner, r *rng, cf *commonFlags) {
 			x.runCase("dec", c17Input{Type: name, Bytes: hx(c17Mutate(r, pick(r, seeds), false))})
 		}
 	}
+	// transactions that break exactly one decode-time rule (Go's encoder does not check them): every one must be refused
+	for i, t := range c17OverLimitTxs(r) {
+		b := t.build().Bytes()
+		if b == nil || len(b) > 6000 {
+			continue
+		}
+		x.runCase("dec", c17Input{Type: pick(r, []string{"tx/bytes", "tx/stream"}), Bytes: hx(b)})
+		_ = i
+	}
 	// identity through all paths: canonical bytes, then the two non-canonical classes (non-minimal var-int; boolean byte > 1)
 	for i, t := range txs {
 		if i >= n/6+3 {
@@ -947,4 +956,90 @@ func le(v uint64, n int) []byte {
 		b[i] = byte(v >> (8 * uint(i)))
 	}
 	return b
+}
+
+// valid transactions turned invalid by one rule each: counts over the limits, duplicates, empty script, fee overflow, long scripts
+func c17OverLimitTxs(r *rng) []c17Tx {
+	base := func() c17Tx {
+		t := c17GenTx(r)
+		for len(t.Signers) > 2 {
+			t.Signers, t.Wits = t.Signers[:2], t.Wits[:2]
+		}
+		t.Attrs = []c17Attr{}
+		return t
+	}
+	conflicts := func(n int) []c17Attr {
+		var a []c17Attr
+		for i := 0; i < n; i++ {
+			a = append(a, c17Attr{T: 0x21, Data: c17GenHash(r, 32)})
+		}
+		return a
+	}
+	var out []c17Tx
+	t := base() // signers + attributes = 17
+	t.Attrs = conflicts(17 - len(t.Signers))
+	out = append(out, t)
+	t = base() // exactly 16: the largest valid
+	t.Attrs = conflicts(16 - len(t.Signers))
+	out = append(out, t)
+	t = base() // 17 signers
+	for len(t.Signers) < 17 {
+		t.Signers = append(t.Signers, c17GenSigner(r, len(t.Signers)))
+		t.Wits = append(t.Wits, c17Wit{})
+	}
+	out = append(out, t)
+	t = base() // duplicate signer account
+	t.Signers = append(t.Signers[:1], t.Signers[0])
+	t.Wits = append(t.Wits[:1], t.Wits[0])
+	out = append(out, t)
+	t = base() // duplicate single-instance attribute
+	t.Attrs = []c17Attr{{T: 1}, {T: 1}}
+	out = append(out, t)
+	t = base()
+	t.Attrs = []c17Attr{{T: 0x20, Height: 1}, {T: 0x20, Height: 2}}
+	out = append(out, t)
+	t = base() // empty script
+	t.Script = ""
+	out = append(out, t)
+	t = base() // witness count differs from signer count
+	t.Wits = append(t.Wits, c17Wit{})
+	out = append(out, t)
+	t = base()
+	t.Wits = t.Wits[:len(t.Wits)-1]
+	out = append(out, t)
+	t = base() // negative fee, fee sum overflow, version 1
+	t.SysFee = -1
+	out = append(out, t)
+	t = base()
+	t.SysFee, t.NetFee = 1<<62, 1<<62
+	out = append(out, t)
+	t = base()
+	t.Version = 1
+	out = append(out, t)
+	t = base() // invocation script of 1025 bytes
+	t.Wits[0].Inv = hx(r.bytes(1025))
+	out = append(out, t)
+	t = base() // 1024: the largest valid
+	t.Wits[0].Ver = hx(r.bytes(1024))
+	out = append(out, t)
+	t = base() // 17 allowed contracts / 17 rules / oracle result with a non-success code
+	t.Signers[0].Scopes = 0x10
+	t.Signers[0].Contracts, t.Signers[0].Groups, t.Signers[0].Rules = nil, nil, nil
+	for i := 0; i < 17; i++ {
+		t.Signers[0].Contracts = append(t.Signers[0].Contracts, c17GenHash(r, 20))
+	}
+	out = append(out, t)
+	t = base()
+	t.Attrs = []c17Attr{{T: 0x11, ID: 1, Code: 0x10, Data: "01"}}
+	out = append(out, t)
+	t = base()
+	t.Attrs = []c17Attr{{T: 0x11, ID: 1, Code: 0x11}}
+	out = append(out, t)
+	t = base() // scopes: Global combined with another scope; unknown scope bit
+	t.Signers[0].Scopes, t.Signers[0].Contracts, t.Signers[0].Groups, t.Signers[0].Rules = 0x81, nil, nil, nil
+	out = append(out, t)
+	t = base()
+	t.Signers[0].Scopes, t.Signers[0].Contracts, t.Signers[0].Groups, t.Signers[0].Rules = 0x02, nil, nil, nil
+	out = append(out, t)
+	return out
 }
